@@ -118,6 +118,42 @@ Proof.
       inversion H; subst. eapply mapM_Forall; [apply parse_elem_range|exact E].
 Qed.
 
+(* string-list membership / inclusion, reflected *)
+Lemma str_mem_iff x l : str_mem x l = true <-> In x l.
+Proof.
+  induction l as [|y t IH]; simpl; [split; [discriminate|tauto]|].
+  rewrite orb_true_iff, IH, list_eqb_spec. split; intros [H|H]; auto.
+Qed.
+
+Lemma str_subset_spec a b : str_subset a b = true <-> incl a b.
+Proof.
+  unfold str_subset, incl. rewrite forallb_forall. split; intros H x Hx.
+  - apply str_mem_iff. auto.
+  - apply str_mem_iff. auto.
+Qed.
+
+(* what [addr_conf_ok] gives, for ANY address configuration: the encoder class is known, its
+   parameters are well-formed, every keyword its EncodeKey requires is passed by the
+   configuration (or by the owning wallet class when ToAddress refuses the encoder), nothing is
+   passed that it does not read, and every keyword its decoder's DecodeAddr requires is one of
+   the configuration's static keywords -- so `Decoder.DecodeAddr(addr, **static_params)` is a
+   well-formed call, which is how the end-to-end check calls it *)
+Lemma addr_conf_ok_keys ev cv a : addr_conf_ok ev cv a = true ->
+  exists i, find_info (a_cls a) (e_infos ev) = Some i /\
+    addr_params_ok (a_params a) = true /\
+    let wallet := if refused ev (a_cls a) then caller_keys (a_cls a) else [] in
+    incl (ai_enc_req i) ((a_keys a ++ a_call_keys a) ++ wallet) /\
+    incl (a_keys a ++ a_call_keys a) (ai_enc_req i ++ ai_enc_opt i) /\
+    incl (ai_dec_req i) (a_keys a ++ wallet) /\
+    incl (a_keys a) (ai_dec_req i ++ ai_dec_opt i) /\
+    (refused ev (a_cls a) = false -> key_accepts (e_accepts ev) (ai_key i) cv = true).
+Proof.
+  unfold addr_conf_ok. destruct (find_info (a_cls a) (e_infos ev)) as [i|]; [|discriminate].
+  rewrite !andb_true_iff, !str_subset_spec. intros [[[[[[[[P _] _] _] E1] E2] D1] D2] K].
+  exists i. repeat split; auto.
+  intros R. rewrite R in K. exact K.
+Qed.
+
 (* what [coin_ok] gives for the key material of a BIP coin *)
 Lemma coin_ok_bip ev c b : coin_ok ev c = true -> c_body c = CBip b ->
   bytes_ok (b_key_pub b) /\ bytes_ok (b_key_priv b) /\
@@ -283,10 +319,7 @@ Lemma coins_coherent_b :
 Proof. vm_compute. reflexivity. Qed.
 
 Lemma str_mem_In x l : str_mem x l = true -> In x l.
-Proof.
-  induction l as [|y t IH]; simpl; [discriminate|].
-  rewrite orb_true_iff. intros [H|H]; [left; symmetry; apply list_eqb_spec; exact H|right; auto].
-Qed.
+Proof. apply str_mem_iff. Qed.
 
 Lemma table_coherent_partial :
   (forall e, In e coins_conf_table -> cconf_coherent e = true \/ In (cc_attr e) offender_names) /\
